@@ -9,7 +9,7 @@ mod verif_c07_api {
     use crate::style::verif_rig_style::*;
     use crate::verif_common::*;
 
-    // @harness id=C07 tier=thorough timeout=3400 mem=12
+    // @harness id=C07 tier=deep timeout=3400 mem=12
     // @bounds one symbolic public call (inductive step from an arbitrary (position,length) state; the model state is exactly that pair) out of {inc, dec, set_position, set_length, inc_length, dec_length, reset, finish} with u64 arguments on a hidden ProgressBar + a clone; getters compared with a wrapping/saturating reference after every call
     #[kani::proof]
     #[kani::unwind(5)]
